@@ -36,17 +36,55 @@ def _engine(name):
 # --------------------------------------------------------------------------- worker side
 
 
+class RunTimeout(BaseException):
+    """A single simulated run exceeded its wall allowance (resource guard, not an oracle)."""
+
+
+def _on_alarm(signum, frame):
+    raise RunTimeout()
+
+
+def _guard(eng, prop, tier):
+    """Resource guards for a worker: address-space cap and a per-run alarm. A run that trips either is DISCARDED and
+    counted (never a pass, never a violation): runaway time/memory of a single call is C05's subject, not this check's."""
+    import resource
+    import signal
+
+    p = eng.plan(prop, tier)
+    cap = p.get("mem_cap_gb", 6)
+    if cap:
+        try:
+            resource.setrlimit(resource.RLIMIT_AS, (cap << 30, cap << 30))
+        except (ValueError, OSError):
+            pass
+    signal.signal(signal.SIGALRM, _on_alarm)
+    return p.get("run_timeout", 180)
+
+
 def _work(engine_name, prop, tier, seed, indices, keep_records):
+    import gc
+    import signal
+
     faulthandler.enable()
     eng = _engine(engine_name)
     state = eng.worker_init(prop, tier)
+    run_timeout = _guard(eng, prop, tier)
     out = []
     try:
         for i in indices:
             rs = common.derive_seed(prop, seed, i)
             rec = eng.generate(prop, rs, tier)
             try:
-                oc = eng.execute(rec, state)
+                signal.alarm(run_timeout)
+                try:
+                    oc = eng.execute(rec, state)
+                finally:
+                    signal.alarm(0)
+            except RunTimeout:
+                oc = {"aborted": "run-timeout"}
+            except MemoryError:
+                oc = {"aborted": "memory-cap"}
+                gc.collect()
             except Exception:
                 oc = {"harness_error": traceback.format_exc()}
             summ = {"i": i, "run_seed": rs}
@@ -67,6 +105,7 @@ def _shrink(engine_name, prop, tier, record, violation):
     """Runs in a pool worker: ddmin along every axis the engine offers while the same violation class persists."""
     eng = _engine(engine_name)
     state = eng.worker_init(prop, tier)
+    _guard(eng, prop, tier)
     calls = 0
     try:
         rec = copy.deepcopy(record)
@@ -295,7 +334,11 @@ def run_check(engine_name, prop, tier, seed):
         max_shrunk = plan.get("max_shrunk", 48)
         jobs = []
         for s in order[:max_shrunk]:
-            jobs.append((s, ex.submit(_shrink, engine_name, prop, tier, s["record"], s["violation"])))
+            try:
+                jobs.append((s, ex.submit(_shrink, engine_name, prop, tier, s["record"], s["violation"])))
+            except Exception as e:  # broken pool: a worker died (e.g. killed by the OOM killer) - harness problem
+                harness_errors.append("cannot submit shrink job: %r" % (e,))
+                break
         unshrunk = order[max_shrunk:]
         os.makedirs(os.path.join(common.VERIF_DIR, "replays"), exist_ok=True)
         seen_sigs = set()
@@ -348,7 +391,8 @@ def run_check(engine_name, prop, tier, seed):
 
     wall = common.now() - t0
     # ---- aggregate coverage
-    good = [s for s in summaries if not s.get("harness_error")]
+    aborted = [s for s in summaries if s.get("aborted")]
+    good = [s for s in summaries if not s.get("harness_error") and not s.get("aborted")]
     sigs_nontrivial = set(s["sig"] for s in good if s.get("nontrivial"))
     sigs_all = set(s["sig"] for s in good)
     faults, probes, pops, extra = {}, {}, {}, {}
@@ -394,6 +438,7 @@ def run_check(engine_name, prop, tier, seed):
         "known_findings_matched": sorted(known_hits.values()),
         "violations_found_raw": len(viol),
         "runs_skipped_by_wall_cap": skipped,
+        "runs_discarded_by_resource_guard": {"count": len(aborted), "first": [[a["i"], a["run_seed"], a["aborted"]] for a in aborted[:10]]},
         "harness_errors": harness_errors[:5],
         "workers": WORKERS,
         "sqlglot_root": common.sqlglot_root(),
